@@ -38,7 +38,7 @@ def keys_set(F, fn):
     return out
 
 
-def run(ctx):
+def _run(ctx):
     F = ctx.facts("default")
     R = "R-SIB"
     need = set()
@@ -145,3 +145,13 @@ def run(ctx):
            what="adjust_zero_pages' top-level walk into an item's children is now conditional on the item's page state: nested zero-page parents to the right of the first paged child keep page (0, 0) and drop out of the table of contents")
     stp = [rf.rvname(s[2]["rv"], 3) for s in lib.stores_to_field(rf, "page", "Bookmark") if s[1] != "T"]
     ctx.ob("R-ORDER", "zero-page-gets-child-page", stp == ["objectid"], "a zero-page parent takes the page found among its descendants", rf.where(), what="a zero-page parent no longer takes the first descendant page")
+
+
+def run(ctx):
+    _run(ctx)
+    import prop_c01
+    # literal strings (operands / titles) are written by Writer::write_string: its escape decision must not depend on list order
+    prop_c01.membership_rule(ctx, ctx.facts("default"))
+    # "the objects all receive fresh identifiers": the counter rule of C11
+    import prop_c11
+    prop_c11.outline_ids(ctx, ctx.facts("default"))
